@@ -232,7 +232,8 @@ pub fn render(tokens: &[Value], seed: u64, stream: u64, layout: u64) -> Result<S
                 }
             }
             _ => {
-                if rng.chance(50) {
+                // `/` directly followed by `//` would turn the division sign into the start of the comment
+                if rng.chance(50) || out.ends_with('/') {
                     out.push(' ');
                 }
                 out.push_str("//");
